@@ -887,6 +887,8 @@ impl<const N: usize, T> CircularBuffer<N, T> {
         self.size -= 1;
     }
 
+    /// Removes the items in `range` (which must be either a prefix or a suffix of the buffer) and
+    /// drops them. The buffer is shrunk before the items are dropped.
     #[inline]
     unsafe fn drop_range(&mut self, range: Range<usize>) {
         if range.is_empty() {
@@ -920,6 +922,15 @@ impl<const N: usize, T> CircularBuffer<N, T> {
 
         let drop_from = add_mod(self.start, range.start, N);
         let drop_to = add_mod(self.start, range.end, N);
+
+        // Shrink the buffer *before* dropping the items, so that no item can be dropped twice (or
+        // observed after being dropped) if one of the destructors panics.
+        if range.end == self.size {
+            self.size = range.start;
+        } else {
+            self.start = drop_to;
+            self.size -= range.end;
+        }
 
         let (right, left) = if drop_from < drop_to {
             (&mut self.items[drop_from..drop_to], &mut [][..])
@@ -1834,7 +1845,6 @@ impl<const N: usize, T> CircularBuffer<N, T> {
         // initialized. The `size` of the buffer is shrunk before dropping, so no value will be
         // dropped twice in case of panics.
         unsafe { self.drop_range(drop_range) };
-        self.size = len;
     }
 
     /// Shortens the buffer, keeping only the back `len` elements and dropping the rest.
@@ -1869,8 +1879,6 @@ impl<const N: usize, T> CircularBuffer<N, T> {
         // initialized. The `start` of the buffer is shrunk before dropping, so no value will be
         // dropped twice in case of panics.
         unsafe { self.drop_range(drop_range) };
-        self.start = add_mod(self.start, drop_len, N);
-        self.size = len;
     }
 
     /// Drops all the elements in the buffer.
